@@ -46,7 +46,8 @@ pub fn def() -> CheckDef {
     }
 }
 
-const NETS: [&str; 3] = [
+const NETS: [&str; 4] = [
+    "a -> b\nb -?? a\nc -?? b\na -?? c\nc -?? c\n$a: f(b)\n$c: a | f(c)",
     "a -> b\nb -| a\na -> c\nb -> c\n$c: a & b",
     "EXa -> V1\nV1 -| 3x\n3x -> EXa\nEXa -> x\n$x: EXa",
     "A -> E_\nE_ -?? A\n_ -> A\n$xx: true",
@@ -55,11 +56,24 @@ const NETS: [&str; 3] = [
 fn run(rng: &mut Rng, _idx: u64, _tier: Tier) -> CaseOut {
     let aeon = *rng.pick(&NETS);
     let bn = BooleanNetwork::try_from(aeon).unwrap();
-    let ctx = SymbolicContext::new(&bn).unwrap();
+    let mut out_bdd_name = false;
+    // plain context, or the context of a graph with 1-3 sets of spare variables
+    let ctx = match rng.below(3) {
+        0 => SymbolicContext::new(&bn).unwrap(),
+        _ => biodivine_hctl_model_checker::mc_utils::get_extended_symbolic_graph(&bn, rng.range(1, 3) as u16).unwrap().symbolic_context().clone(),
+    };
     let names: Vec<String> = bn.variables().map(|v| bn.get_variable_name(v).clone()).collect();
     let mut props = names.clone();
     if rng.chance(1, 4) {
         props.push(rng.pick(&["zz", "EX_", "unknown", "x", "true1"]).to_string());
+    } else if rng.chance(1, 5) {
+        // names of symbolic variables that are not network variables (spare copies, function-table rows)
+        let vars = ctx.bdd_variable_set();
+        let cands: Vec<String> = vars.variables().into_iter().map(|v| vars.name_of(v)).filter(|n| !names.contains(n)).collect();
+        if !cands.is_empty() {
+            props.push(rng.pick(&cands).clone());
+            out_bdd_name = true;
+        }
     }
     let mut fopts = FormOpts::plain();
     fopts.bin_ops = ALL_BIN.to_vec();
@@ -90,6 +104,9 @@ fn run(rng: &mut Rng, _idx: u64, _tier: Tier) -> CaseOut {
     let f = gen_formula(rng, &fopts, &props);
     let text = f.canon();
     let mut out = CaseOut::new(format!("{aeon}|{text}"));
+    if out_bdd_name {
+        out.count("props_named_like_a_symbolic_variable");
+    }
     let quantifiers = {
         let mut subs = Vec::new();
         f.subformulas(&mut subs);
